@@ -45,7 +45,8 @@ static void put_fp (const ENC *e, unsigned char *p, const void *in) { int n = e-
 static int intmin_reported ;
 static long dom_n ; static short *dom_s ; static int *dom_i ; static float *dom_f ; static double *dom_d ;
 static int cmp_d (const void *a, const void *b) { double x = *(const double *) a, y = *(const double *) b ; return x < y ? -1 : x > y ; }
-static void build_domain (int stride, int w, int fpmode)		/* fpmode 0: [-1,1) normalised; 1: integer valued (norm off); 2: incl. out of range (clipping) */
+static void build_domain (int stride, int w, int fpmode, int g711)		/* g711: 0 no, 1 mu-law, 2 A-law */
+/* was: (int stride, int w, int fpmode) */		/* fpmode 0: [-1,1) normalised; 1: integer valued (norm off); 2: incl. out of range (clipping) */
 {	long i, n = 0, cap = 65536 / stride + 70000 ; double *d ;
 	free (dom_s) ; free (dom_i) ; free (dom_f) ; free (dom_d) ;
 	dom_s = malloc (2 * cap) ; dom_i = malloc (4 * cap) ; dom_f = malloc (4 * cap) ; dom_d = d = malloc (8 * cap) ;
@@ -70,6 +71,17 @@ static void build_domain (int stride, int w, int fpmode)		/* fpmode 0: [-1,1) no
 		if (fpmode != 2 && fpmode != 1) { if (x >= 1.0) x = 0.99999994 ; if (x < -1.0) x = -1.0 ; }
 		d [i] = x ;
 		}
+	if (g711 && fpmode != 1)
+	{	/* both sides of every rounding tie that sits just under a decision level of the codec, on the codec's own grid (see the write check) */
+		double G = 32767.0 / (g711 == 2 ? 16 : 4) ; long k, kmax = g711 == 2 ? 2047 : 8191 ; int sg, dl ; static const double delta [] = { -0.002, 0.002, -0.03, 0.03 } ;
+		for (k = 1 ; k <= kmax ; k++)
+		{	if (g711 == 2 ? ref_alaw_enc13 (0, (int) (2 * k)) == ref_alaw_enc13 (0, (int) (2 * k - 2)) : ref_ulaw_enc14 (0, (int) k) == ref_ulaw_enc14 (0, (int) k - 1)) continue ;
+			for (sg = -1 ; sg <= 1 ; sg += 2) for (dl = 0 ; dl < 4 && n < cap ; dl++)
+			{	double x = sg * (k - 0.5 + delta [dl]) / G ; int sv = (int) lrint (x * 32767.0) ;
+				d [n] = x ; dom_s [n] = (short) sv ; dom_i [n] = sv * 65536 ; n++ ; }
+			}
+		dom_n = n ;
+		}
 	if (fpmode == 2) qsort (d, n, sizeof (double), cmp_d) ;		/* sorted: lets us check monotonicity under clipping */
 	for (i = 0 ; i < n ; i++) dom_f [i] = (float) d [i] ;
 }
@@ -78,10 +90,13 @@ static void build_domain (int stride, int w, int fpmode)		/* fpmode 0: [-1,1) no
 static void write_test (const ENC *e, int t, int norm, int clip, int scale_if, int stride)
 {	MEMF m ; SNDFILE *s ; long i, n ; int fpmode = (t >= T_FLOAT) ? (clip ? 2 : norm ? 0 : 1) : 0 ; int64_t prev = INT64_MIN ; long bad = 0 ;
 	const char *cfg = vh_key ("%s%s%s", norm ? "norm" : "raw", clip ? "+clip" : "", scale_if ? "+scale_int_float" : "") ; char cfgb [48] ; snprintf (cfgb, sizeof (cfgb), "%s", cfg) ;
-	build_domain (stride, e->is_g711 ? 16 : e->w, fpmode) ; n = dom_n ; intmin_reported = 0 ;
+	build_domain (stride, e->is_g711 ? 16 : e->w, fpmode, e->is_g711 ? 1 + e->alaw : 0) ; n = dom_n ; intmin_reported = 0 ;
 	if (t == T_INT) dom_i [7] = INT32_MIN ;
 	memset (&m, 0, sizeof (m)) ;
 	s = vh_open_w (&m, e->format, 1, 8000, NULL) ; if (!s) return ;
+	if (vh_rnd () & 1)		/* half the cases reach their settings through the opposite ones first */
+	{	sf_command (s, SFC_SET_NORM_FLOAT, NULL, !norm) ; sf_command (s, SFC_SET_NORM_DOUBLE, NULL, !norm) ;
+		sf_command (s, SFC_SET_CLIPPING, NULL, !clip) ; sf_command (s, SFC_SET_SCALE_INT_FLOAT_WRITE, NULL, !scale_if) ; }
 	sf_command (s, SFC_SET_NORM_FLOAT, NULL, norm) ; sf_command (s, SFC_SET_NORM_DOUBLE, NULL, norm) ;
 	sf_command (s, SFC_SET_CLIPPING, NULL, clip) ; sf_command (s, SFC_SET_SCALE_INT_FLOAT_WRITE, NULL, scale_if) ;
 	if (vh_write_t (s, t, (int) (vh_rnd () & 1), t == T_SHORT ? (void *) dom_s : t == T_INT ? (void *) dom_i : t == T_FLOAT ? (void *) dom_f : (void *) dom_d, n, 1) != n)
@@ -114,11 +129,16 @@ static void write_test (const ENC *e, int t, int norm, int clip, int scale_if, i
 				if (norm ? (fabs (x) >= 1.0) : (fabs (x) >= 32768.0)) continue ;		/* out of range input to G.711 is outside the property's domain */
 				/* tt = magnitude on the codec's input scale (13-bit A-law, 14-bit mu-law).  The docs give no formula for float input: accept the G.711
 				** code of any integer within 1 of tt (rounding to the codec's input grid before the truncating G.711 quantiser) */
-				r1 = 256 + 1 ;
-				for (k = (long) floor (tt - 1.0 - 1e-6) ; k <= (long) ceil (tt + 1.0 + 1e-6) ; k++)
-				{	if (k < 0) continue ;
-					if (c == (e->alaw ? ref_alaw_enc13 (neg, (int) k) : ref_ulaw_enc14 (neg, (int) k))) r1 = c ;
-					if (k == 0 && c == (e->alaw ? ref_alaw_enc13 (!neg, 0) : ref_ulaw_enc14 (!neg, 0))) r1 = c ;
+				/* the codec's own input grid: A-law ignores the lowest of its 12 magnitude bits (smallest step 2), so its grid is 16 on the 16-bit scale; mu-law's is 4.
+				** "Nearest integer to x*(2^15-1)" followed by the truncating G.711 quantiser gives floor(u) on that grid; rounding straight to the grid gives
+				** lrint(u).  Both are accepted, nothing else: a scale factor other than 2^15-1 moves u across a decision level for inputs just under a tie. */
+				{	double u = e->alaw ? tt / 2 : tt, e1 = u * (t == T_FLOAT ? 3e-7 : 1e-12) + 1e-9 ; int mul = e->alaw ? 2 : 1 ;
+					r1 = 256 + 1 ;
+					for (k = (long) floor (u - e1) ; k <= (long) floor (u + 0.5 + e1) ; k++)
+					{	if (k < 0) continue ;
+						if (c == (e->alaw ? ref_alaw_enc13 (neg, (int) (k * mul)) : ref_ulaw_enc14 (neg, (int) k))) r1 = c ;
+						if (k == 0 && c == (e->alaw ? ref_alaw_enc13 (!neg, 0) : ref_ulaw_enc14 (!neg, 0))) r1 = c ;
+						}
 					}
 				snprintf (exp, sizeof (exp), "stored code 0x%02x; input magnitude on the codec scale %.3f; G.711 code of round() is 0x%02x", c, tt, e->alaw ? ref_alaw_enc13 (neg, (int) lrint (tt)) : ref_ulaw_enc14 (neg, (int) lrint (tt))) ;
 				}
@@ -176,6 +196,13 @@ static void read_test (const ENC *e, int t, int norm, int scale_fi, int clip, in
 	s = vh_open_r (&m, e->format, 1, 8000, &ri) ; if (!s) { vh_viol (vh_key ("C02|reopen|%s", e->fn), "%s", sf_strerror (NULL)) ; mv_free (&m) ; free (codes) ; free (fpv) ; return ; }
 	sf_command (s, SFC_SET_NORM_FLOAT, NULL, norm) ; sf_command (s, SFC_SET_NORM_DOUBLE, NULL, norm) ; sf_command (s, SFC_SET_CLIPPING, NULL, clip) ;
 	if (scale_fi) sf_command (s, SFC_SET_SCALE_FLOAT_INT_READ, NULL, SF_TRUE) ;
+	else if (vh_rnd () & 1)
+	{	/* a switch that was on and is off again is off: half the unscaled cases reach the read through on -> off (and norm through its opposite first) */
+		sf_command (s, SFC_SET_SCALE_FLOAT_INT_READ, NULL, SF_TRUE) ; sf_command (s, SFC_SET_SCALE_FLOAT_INT_READ, NULL, SF_FALSE) ;
+		sf_command (s, SFC_SET_NORM_FLOAT, NULL, !norm) ; sf_command (s, SFC_SET_NORM_DOUBLE, NULL, !norm) ; sf_command (s, SFC_SET_CLIPPING, NULL, !clip) ;
+		sf_command (s, SFC_SET_NORM_FLOAT, NULL, norm) ; sf_command (s, SFC_SET_NORM_DOUBLE, NULL, norm) ; sf_command (s, SFC_SET_CLIPPING, NULL, clip) ;
+		snprintf (cfgb + strlen (cfgb), sizeof (cfgb) - strlen (cfgb), "+toggled") ;
+		}
 	out = vh_guard_alloc ((size_t) n * 8, 0) ;
 	if (vh_read_t (s, t, (int) (vh_rnd () & 1), out, n, 1) != n) { vh_viol (vh_key ("C02|read-count|%s|%s", e->fn, vh_tname [t]), "short read") ; sf_close (s) ; free (out) ; mv_free (&m) ; free (codes) ; free (fpv) ; return ; }
 	sf_close (s) ;
